@@ -229,3 +229,27 @@ def _neighbours(prog, limit=3):
         M.returns(b["body"])[0]["groups"][0]["w"] = "202"
         res.append(("Adler-32 twin weight 121 vs 202", a, b))
     return res
+
+
+_DIGEST_TWINS = []
+
+
+def digest_prefix_twins():
+    """pairs of different salts whose digests agree in 32 bits (first / last 8 hex digits of MD5, first 8 of SHA-1 / SHA-256),
+    found by a deterministic birthday search: whatever short token a library derives from a salt, two salts are two salts"""
+    import hashlib
+
+    if not _DIGEST_TWINS:
+        for name, f in (("md5[:8]", lambda b: hashlib.md5(b).hexdigest()[:8]), ("md5[-8:]", lambda b: hashlib.md5(b).hexdigest()[-8:]),
+                        ("sha1[:8]", lambda b: hashlib.sha1(b).hexdigest()[:8]), ("sha256[:8]", lambda b: hashlib.sha256(b).hexdigest()[:8])):
+            seen = {}
+            i = 0
+            while True:
+                s = "checkout-button-v%d" % i
+                k = f(s.encode())
+                if k in seen:
+                    _DIGEST_TWINS.append((seen[k], s))
+                    break
+                seen[k] = s
+                i += 1
+    return list(_DIGEST_TWINS)
